@@ -153,7 +153,7 @@ mod verif_kani_datetime {
         let which: u8 = kani::any();
         kani::assume(which >= lo && which <= hi);
         let (got, want) = match which {
-            0 => (dt.with_year(y), w.with_year(y)),
+            0 => (dt.with_year(y), if w.year() == y { Some(w) } else { w.with_year(y) }),      // documented: an unchanged year keeps the value even in the one-day headroom
             1 => (dt.with_month(v), w.with_month(v)),
             2 => (dt.with_month0(v), w.with_month0(v)),
             3 => (dt.with_day(v), w.with_day(v)),
@@ -549,5 +549,55 @@ mod verif_kani_datetime {
                 }
             }
         }
+    }
+
+    // ---- conversions to and from the system clock type, the calendar side taken through its contracts ----------------------------------
+    struct SRec { magic: u64, ts_calls: u8, ts_args: (i64, u32), stamp: i64 }
+    static mut SREC: SRec = SRec { magic: 0xC0DE_5EED_D15C_000C, ts_calls: 0, ts_args: (0, 0), stamp: 0 };
+    // DateTime::from_timestamp (Verus unit datetime: Some iff representable, exactly that second and nanosecond field), reached through the
+    // provided method TimeZone::timestamp_opt (Verus, generic): records its arguments
+    fn st_from_timestamp(secs: i64, nsecs: u32) -> Option<DateTime<Utc>> {
+        unsafe { SREC.ts_calls += 1; SREC.ts_args = (secs, nsecs); }
+        Some(any_ndt().and_utc())
+    }
+    // DateTime::timestamp (Verus: the Unix second count, inside the range of valid date-times)
+    fn st_dt_timestamp<Tz: TimeZone>(_x: &DateTime<Tz>) -> i64 { unsafe { SREC.stamp } }
+
+    // fns: From<SystemTime> for DateTime<Utc> (the second count and nanosecond field handed to the calendar constructor, both sides of the epoch)
+    // assumes: DateTime::from_timestamp, TimeZone::timestamp_opt
+    #[kani::proof]
+    #[kani::unwind(5)]
+    #[kani::stub(DateTime::<Utc>::from_timestamp, st_from_timestamp)]
+    fn vk_dt_from_system_time() {
+        use std::time::{Duration, UNIX_EPOCH};
+        let secs: u64 = kani::any(); let ns: u32 = kani::any(); let before: bool = kani::any();
+        kani::assume(secs <= 9_000_000_000_000 && ns < 1_000_000_000);
+        let d = Duration::new(secs, ns);
+        let t = if before { UNIX_EPOCH - d } else { UNIX_EPOCH + d };
+        // floor split of the signed nanosecond count: -(s + f) = (-s - 1) + (1 - f) for a fraction f > 0
+        let want = if !before { (secs as i64, ns) } else if ns == 0 { (-(secs as i64), 0) } else { (-(secs as i64) - 1, 1_000_000_000 - ns) };
+        let _dt = DateTime::<Utc>::from(t);
+        let (c, a) = unsafe { (SREC.ts_calls, SREC.ts_args) };
+        kani::cover!(before && ns != 0); kani::cover!(before && ns == 0 && secs > 0);
+        assert!(c == 1 && a == want, "the instant is handed over as floor seconds + non-negative nanoseconds");
+    }
+
+    // fns: From<DateTime<Tz>> for SystemTime (the instant = second count + nanosecond field, also inside a leap second and before the epoch)
+    // assumes: DateTime::timestamp
+    #[kani::proof]
+    #[kani::unwind(5)]
+    #[kani::stub(DateTime::timestamp, st_dt_timestamp)]
+    fn vk_dt_to_system_time() {
+        use std::time::{Duration, SystemTime, UNIX_EPOCH};
+        let dt = any_offset().from_utc_datetime(&any_ndt());
+        let stamp: i64 = kani::any();
+        kani::assume(stamp >= -8_334_601_228_800 && stamp <= 8_210_266_876_799);
+        unsafe { SREC.stamp = stamp; }
+        let nsec = dt.timestamp_subsec_nanos();
+        let st = SystemTime::from(dt);
+        let whole = if stamp >= 0 { UNIX_EPOCH + Duration::from_secs(stamp as u64) } else { UNIX_EPOCH - Duration::from_secs(stamp.unsigned_abs()) };
+        let want = whole + Duration::from_nanos(nsec as u64);
+        kani::cover!(stamp < 0 && nsec >= 1_000_000_000); kani::cover!(stamp < 0 && nsec == 0);
+        assert!(st == want, "the system time is the epoch plus seconds and nanoseconds (a leap-second field counts its full value)");
     }
 }
